@@ -50,6 +50,8 @@ pub use self::epoch_info::{EpochInfo, ValidatorEpochInfo};
 #[cfg(feature = "test-utils")]
 pub use self::pool::bench_replay_votes;
 pub use self::pool::{AddVoteError, Pool, PoolEvent, PoolImpl, SharedPool};
+#[cfg(feature = "verif-hooks")]
+pub use self::pool::{AddCertError, SlashableOffence};
 pub use self::validated_cert::{CertValidationError, ValidatedCert};
 pub use self::validated_vote::{ValidatedVote, VoteValidationError};
 pub use self::vote::{FinalVote, NotarFallbackVote, NotarVote, SkipFallbackVote, SkipVote, Vote};
